@@ -18,6 +18,7 @@ from xdsl.dialects.builtin import (
     AnyFloat,
     BytesAttr,
     DenseArrayBase,
+    FunctionType,
     IntegerType,
     StringAttr,
     UnitAttr,
@@ -949,7 +950,7 @@ class FunctionalTypeDirective(FormatDirective):
             )
         printer.print_string(" -> ")
         result_types = self.result_typeable_directive.get_types(op)
-        if len(result_types) == 1:
+        if len(result_types) == 1 and not isinstance(result_types[0], FunctionType):
             printer.print_attribute(result_types[0])
         else:
             with printer.in_parens():
